@@ -142,6 +142,7 @@ theorem tarOne_fails_iff (fs : FS) (root : P) (mask : Nat) (e : Entry) :
 /-- the iterations of the zip loop that fail (a symbolic-link entry whose payload cannot be read fails before
     anything is created; every kind other than symbolic link and directory is extracted as a file) -/
 def ZipFails (fs : FS) (root : P) (mask : Nat) (e : Entry) : Prop :=
+  e.kind = .corrupt ∨                       -- the entry cannot be opened (unsupported method, bad local header)
   lexOK root (cleanJoin root e.name) (e.kind == .dir) = false ∨
   ensureNoSymlinks fs root (cleanJoin root e.name) = false ∨
   (e.kind = .dir ∧ mkdirAll fs (cleanJoin root e.name) (perm e.mode &&& mask) = none) ∨
@@ -149,7 +150,7 @@ def ZipFails (fs : FS) (root : P) (mask : Nat) (e : Entry) : Prop :=
     mkdirAll fs (cleanJoin root e.name).dropLast (0o755 &&& mask) = none ∨
     ∃ fs1, mkdirAll fs (cleanJoin root e.name).dropLast (0o755 &&& mask) = some fs1 ∧
       symlinkAt fs1 e.link (cleanJoin root e.name) = none)) ∨
-  (e.kind ≠ .dir ∧ e.kind ≠ .symlink ∧
+  (e.kind ≠ .dir ∧ e.kind ≠ .symlink ∧ e.kind ≠ .corrupt ∧
     (mkdirAll fs (cleanJoin root e.name).dropLast (0o755 &&& mask) = none ∨
      ∃ fs1, mkdirAll fs (cleanJoin root e.name).dropLast (0o755 &&& mask) = some fs1 ∧
       (writeFile fs1 (cleanJoin root e.name) (perm e.mode &&& mask) e.data = none ∨ e.short = true)))
@@ -170,6 +171,8 @@ theorem zipOne_fails_iff (fs : FS) (root : P) (mask : Nat) (e : Entry) :
     cases h0 : e.short <;> simp
     cases h3 : mkdirAll fs (cleanJoin root e.name).dropLast (493 &&& mask) <;> simp
     cases h4 : symlinkAt _ e.link (cleanJoin root e.name) <;> simp
+  case corrupt =>
+    simp [kind_beq]
   all_goals
     simp [kind_beq]
     cases h1 : lexOK root (cleanJoin root e.name) false <;>
